@@ -24,7 +24,8 @@ from vlib.front import unparse, dotted, const_value, AnchorMissing
 from obligations.C11 import MI, _strip
 
 MG = 'phylib/io/merge.py'
-FLOOR = 17
+FLOOR = 11          # decided obligations below this = the analysis lost its footing (exit 2); clean tree: 30
+RULES = ('C12.D1', 'C12.S1', 'C12.S2', 'C12.S3')          # every obligation group must report (holds / violated / undecided): a group that vanishes silently is an analysis error
 EXPLANATION = ('proto/sym walks of the Merger channel/template methods: loop bodies are walked from symbolic accumulator states and the '
                'column base / offsets / recorded values compared as normal forms with the cumulative-size recurrences of the specification; '
                'saved arrays are traced to concat / block_diag of the per-probe files in input order')
@@ -202,11 +203,26 @@ def s2_template_data(ctx):
     ctx.analysed['paths'] += len(outs)
     pairing = {}
     probs = []
+    saved_names = {e[1][1] for kind, val, st in outs for e in st.trace if e[0] == 'save' and is_c(e[1])}
+    unknown_saves = any(e[0] == 'save' and not is_c(e[1]) for kind, val, st in outs for e in st.trace)
+    def subst_list(t, items):
+        if t == T('list'):
+            return T('list', *items)
+        if is_t(t):
+            return T(t[1], *[subst_list(x, items) for x in t[2:]])
+        return t
     for kind, val, st in outs:
+        pending = []            # values appended to a local list since the last save (a loop that builds the list the helper concatenates)
         for e in st.trace:
+            if e[0] == 'append' and len(e) >= 4 and e[1] == T('list'):
+                pending.append(e[3])
+                continue
             if e[0] != 'save' or not is_c(e[1]):
                 continue
             name, arr = e[1][1], e[2]
+            if pending and any(x == T('list') for x in subterms(arr)):
+                arr = subst_list(arr, pending)
+            pending = []
             zs = [x for x in subterms(arr) if is_t(x) and x[1] == 'call' and x[2] == 'zip']
             adds = [x for x in subterms(arr) if is_t(x) and x[1] == 'Add']
             if not zs:
@@ -233,7 +249,11 @@ def s2_template_data(ctx):
     want = {'pc_feature_ind.npy': 'channel_index_offsets', 'template_feature_ind.npy': 'template_offsets'}
     for name, attr in want.items():
         got = pairing.get(name)
-        if got is None:
+        if got is None and name in saved_names:
+            continue                # saved, but only on paths without any probe (nothing to pair): the general problems above decide
+        if got is None and unknown_saves:
+            ctx.undecided('C12.S2', f, '%s: no save of that name was recognised (a file is saved under a name that is not a constant)' % name)
+        elif got is None:
             ctx.violated('C12.S2', f, name, '%s is not written by write_template_data' % name)
         else:
             ctx.check(got == attr, 'C12.S2', f, '%s <- %s' % (name, got), '%s is shifted by self.%s' % (name, attr),
@@ -609,7 +629,29 @@ def d1_params(ctx):
             ctx.undecided('C12.D1', f, 'write of the merged params not recognised')
 
 
+def s2_offsets_prerequisite(ctx):
+    """template t of probe k is placed at its offset index, and the template-index table is shifted by the same offsets: both read self.template_offsets, whose
+    recurrence (start at 0, grows by max(template ids of the probe) + 1, recorded = shift applied) is C11.S1. Those obligations are prerequisites here;
+    only the ones about the TEMPLATE offsets are taken over."""
+    from vlib import report
+    from obligations import C11
+    sub = report.Ctx('C11', ctx.repo, ctx.tier, ctx.seed)
+    sub.part('C11.S1', C11.s1_offsets)
+    rel = [o for o in sub.obs if o.rule == 'C11.S1' and ('template' in o.detail or 'toffset' in o.construct or 'template' in o.construct)]
+    bad = [o for o in rel if o.status == 'violated']
+    for o in bad:
+        ctx.obs.append(report.Ob('C12.S2', o.where, 'violated', 'templates are placed at, and the template-index table is shifted by, self.template_offsets, whose construction is wrong (%s): %s' %
+                                 (o.rule, o.detail), o.construct, o.line))
+    if not bad:
+        if any(o.status == 'holds' for o in rel):
+            ctx.holds('C12.S2', MG + ':Merger.write_spike_clusters', 'template offsets: %d obligations of C11.S1 about the template offsets hold (%d undecided)' %
+                      (len([o for o in rel if o.status == 'holds']), len([o for o in rel if o.status == 'undecided'])), 'template_offsets recurrence')
+        else:
+            ctx.undecided('C12.S2', MG + ':Merger.write_spike_clusters', 'the recurrence of the template offsets (C11.S1) was not decided')
+
+
 def run(ctx):
+    ctx.part('C12.S2', s2_offsets_prerequisite)
     ctx.part('C12.S1', s1_templates)
     ctx.part('C12.S2', s2_template_data)
     ctx.part('C12.S3', s3_positions_misc)
